@@ -658,7 +658,14 @@ class Sym:
                 if a is None or b is None:
                     return None
                 if op == "Shl" and b.is_const() and 0 <= b.const_value() <= 62:
-                    return a * Poly.const(1 << int(b.const_value()))      # same value wherever the result fits the type
+                    # `a << k` is `a * 2^k` exactly when no set bit is shifted out: the product's interval must fit
+                    # the operand type (otherwise the shift truncates and stays an opaque symbol)
+                    from .prover import poly_interval
+                    prod = a * Poly.const(1 << int(b.const_value()))
+                    plo, phi_ = poly_interval(prod, {s_: self.sym_box.get(s_, (None, None)) for s_ in prod.syms()})
+                    tlo, thi = self.int_range(self.bin_type(t[2]))
+                    if plo is not None and phi_ is not None and tlo is not None and tlo <= plo and phi_ <= thi:
+                        return prod
                 nm = "%s(%s,%s)" % (op.lower(), a, b)
                 if nm not in self.sym_box:
                     # value ranges of bit operations with a constant operand (unsigned operands)
